@@ -107,6 +107,56 @@ def _unconditional_nodes(s):
     return out
 
 
+def pm_cover_rules(ck, P, rule="R-COVER-PM"):
+    """PMTiles: the coverage scan and the lookup walk the same directory bytes with the same decoding steps and the same
+    two branch conditions, and the scan includes every id of a run (tile_id + i for 0 <= i < run_length)."""
+    pd = [b for b in P.bodies if b["q"].endswith("calc_bbox_pyramid::parse_directories")]
+    pimpl = [i for i in P.impls_of("::TilesReaderTrait") if i.get("self_adt", "").endswith("::PMTilesReader")]
+    if ck.anchor(rule, "parse_directories + reader", pd + pimpl, 2):
+        b = pd[0]
+        gtd = P.impl_method(pimpl[0], "get_tile_data")
+
+        def steps(body):
+            out = []
+            for n in ir.walk_nodes(body["body"]):
+                if n.get("k") in ("call", "mcall"):
+                    q = n.get("q") or ""
+                    for s in ("EntriesV3::from_blob", "Blob::read_range", "compression::decompress"):
+                        if q.endswith(s):
+                            out.append(s)
+            return out
+        s1, s2 = steps(b), steps(gtd)
+        ck.check(set(s1) == set(s2) == {"EntriesV3::from_blob", "Blob::read_range", "compression::decompress"}, rule, "same-walk",
+                 "coverage scan and lookup decode directories with the same steps (from_blob, leaves.read_range, decompress)", "decoding steps differ: %s vs %s" % (s1, s2), ir.loc(b))
+        # run lengths: for i in 0..run_length include tile_id + i
+        loops = [n for n in ir.walk_nodes(b["body"]) if n.get("k") == "for" and "run_length" in ir.place_str(n["iter"]) + str(n["iter"])]
+        okr = False
+        for lp in loops:
+            it = ir.unparen(lp["iter"])
+            fl = {f["name"]: f["e"] for f in it.get("fields", [])} if it.get("k") == "struct" else {}
+            start_ok = ir.const_eval(fl.get("start"), {}) == 0 if "start" in fl else False
+            end_ok = "end" in fl and ir.place_str(fl["end"]).endswith("run_length") and "RangeInclusive" not in (it.get("q") or "")
+            iv = ir.pat_binds(lp["pat"])
+            inc = [y for y in ir.walk_nodes(lp["body"]) if y.get("k") == "mcall" and y.get("name") == "include_coord"]
+            idc = [y for y in ir.walk_nodes(lp["body"]) if y.get("k") == "call" and (y.get("q") or "").endswith("tile_id_to_coord")]
+            sum_ok = False
+            if idc and iv:
+                a = ir.unparen(idc[0]["a"][0])
+                if a.get("k") == "bin" and a.get("op") == "+":
+                    sides = [ir.strip(a["l"]), ir.strip(a["r"])]
+                    sum_ok = any(ir.local_hid(x) == iv[0]["hid"] for x in sides) and any(x.get("k") == "field" and x.get("name") == "tile_id" for x in sides)
+            okr = start_ok and end_ok and bool(inc) and sum_ok
+        ck.check(okr, rule, b["q"] + "|runs", "every id tile_id + i, 0 <= i < run_length, is included", "run-length expansion does not include every addressed id", ir.loc(b))
+        def has(cs, suffix):
+            return any(c is not None and c[0].endswith(suffix) and c[1] == ">" and c[2] == "0" for c in cs)
+        conds = [ir.cmp_norm(n["c"]) for n in ir.walk_nodes(b["body"]) if n.get("k") == "if"]
+        ck.check(has(conds, ".range.length") and has(conds, ".run_length"), rule, b["q"] + "|branches",
+                 "entries with length > 0 are visited; run_length > 0 means tiles, otherwise a leaf directory (as in the lookup)", "branch conditions are %s" % conds, ir.loc(b))
+        lk = [ir.cmp_norm(n["c"]) for n in ir.walk_nodes(gtd["body"]) if n.get("k") == "if"]
+        ck.check(has(lk, ".range.length") and has(lk, ".run_length"), rule, gtd["q"] + "|branches", "the lookup uses the same two conditions", "lookup conditions are %s" % lk, ir.loc(gtd))
+
+
+
 def rules(ck, P):
     pair_rule(ck, P, "::TarTilesReader", "tar")
     pair_rule(ck, P, "::DirectoryTilesReader", "directory")
@@ -137,49 +187,7 @@ def rules(ck, P):
             okp = ir.contains(opn[0]["body"], lambda y: y.get("k") == "mcall" and (y.get("q") or "").endswith("BlockIndex::get_bbox_pyramid"))
             ck.check(okp, "R-COVER-VT", opn[0]["q"], "the advertised pyramid comes from the block index", "advertised pyramid does not come from the block index", ir.loc(opn[0]))
 
-    # ---------------- pmtiles
-    pd = [b for b in P.bodies if b["q"].endswith("calc_bbox_pyramid::parse_directories")]
-    pimpl = [i for i in P.impls_of("::TilesReaderTrait") if i.get("self_adt", "").endswith("::PMTilesReader")]
-    if ck.anchor("R-COVER-PM", "parse_directories + reader", pd + pimpl, 2):
-        b = pd[0]
-        gtd = P.impl_method(pimpl[0], "get_tile_data")
-
-        def steps(body):
-            out = []
-            for n in ir.walk_nodes(body["body"]):
-                if n.get("k") in ("call", "mcall"):
-                    q = n.get("q") or ""
-                    for s in ("EntriesV3::from_blob", "Blob::read_range", "compression::decompress"):
-                        if q.endswith(s):
-                            out.append(s)
-            return out
-        s1, s2 = steps(b), steps(gtd)
-        ck.check(set(s1) == set(s2) == {"EntriesV3::from_blob", "Blob::read_range", "compression::decompress"}, "R-COVER-PM", "same-walk",
-                 "coverage scan and lookup decode directories with the same steps (from_blob, leaves.read_range, decompress)", "decoding steps differ: %s vs %s" % (s1, s2), ir.loc(b))
-        # run lengths: for i in 0..run_length include tile_id + i
-        loops = [n for n in ir.walk_nodes(b["body"]) if n.get("k") == "for" and "run_length" in ir.place_str(n["iter"]) + str(n["iter"])]
-        okr = False
-        for lp in loops:
-            it = ir.unparen(lp["iter"])
-            fl = {f["name"]: f["e"] for f in it.get("fields", [])} if it.get("k") == "struct" else {}
-            start_ok = ir.const_eval(fl.get("start"), {}) == 0 if "start" in fl else False
-            end_ok = "end" in fl and ir.place_str(fl["end"]).endswith("run_length") and "RangeInclusive" not in (it.get("q") or "")
-            iv = ir.pat_binds(lp["pat"])
-            inc = [y for y in ir.walk_nodes(lp["body"]) if y.get("k") == "mcall" and y.get("name") == "include_coord"]
-            idc = [y for y in ir.walk_nodes(lp["body"]) if y.get("k") == "call" and (y.get("q") or "").endswith("tile_id_to_coord")]
-            sum_ok = False
-            if idc and iv:
-                a = ir.unparen(idc[0]["a"][0])
-                if a.get("k") == "bin" and a.get("op") == "+":
-                    names = {ir.place_str(a["l"]), ir.place_str(a["r"])}
-                    sum_ok = iv[0]["name"] in names and any(x.endswith("tile_id") for x in names)
-            okr = start_ok and end_ok and bool(inc) and sum_ok
-        ck.check(okr, "R-COVER-PM", b["q"] + "|runs", "every id tile_id + i, 0 <= i < run_length, is included", "run-length expansion does not include every addressed id", ir.loc(b))
-        conds = [ir.cmp_norm(n["c"]) for n in ir.walk_nodes(b["body"]) if n.get("k") == "if"]
-        ck.check(("entry.range.length", ">", "0") in conds and ("entry.run_length", ">", "0") in conds, "R-COVER-PM", b["q"] + "|branches",
-                 "entries with length > 0 are visited; run_length > 0 means tiles, otherwise a leaf directory (as in the lookup)", "branch conditions are %s" % conds, ir.loc(b))
-        lk = [ir.cmp_norm(n["c"]) for n in ir.walk_nodes(gtd["body"]) if n.get("k") == "if"]
-        ck.check(("entry.range.length", ">", "0") in lk and ("entry.run_length", ">", "0") in lk, "R-COVER-PM", gtd["q"] + "|branches", "the lookup uses the same two conditions", "lookup conditions are %s" % lk, ir.loc(gtd))
+    pm_cover_rules(ck, P)
 
     # ---------------- mbtiles
     mb = [b for b in P.bodies if b["q"].endswith("mbtiles::reader::MBTilesReader::get_bbox_pyramid")]
